@@ -146,6 +146,12 @@ pub trait Ctx {
     fn fri_arg_mutants(&self, _b: &Value) -> Result<Vec<(String, CircV)>, String> {
         Ok(vec![])
     }
+    /// C14: the next-layer path with a verifying key (`common_data`) that is NOT the proof's own
+    /// `stark_common` object: the honest proof checked against a key whose preprocessed commitment
+    /// differs in one word. (label, outcome of build + pack + run); every outcome must be a rejection.
+    fn foreign_key_probe(&self, _b: &Value) -> Result<Vec<(String, CircV)>, String> {
+        Ok(vec![])
+    }
 }
 
 pub trait Shape: Send + Sync {
